@@ -235,8 +235,10 @@ class ProgGen:
             if x.ndim_n < 1 or y.ndim_n < 1:
                 return None
             ia, ib = [x.ndim_n - 1], [0]
-        if mal and not matmul and rng.random() < 0.3:
-            return self._tensordot_bad_dims()
+        if not matmul and rng.random() < (0.3 if mal else 0.05):
+            r = self._tensordot_bad_dims()
+            if r is not None or mal:
+                return r
         if mal:
             kind = rng.choice(["sig", "repeat", "range", "count"])
             if kind == "sig":
